@@ -26,7 +26,13 @@ FullPalette == {
     P(9, kC, {1},    TRUE,  TRUE,  <<3, 3>>),      \* saturates inside one proof
     P(10, kE, {4},   TRUE,  TRUE,  <<2, 0>>),
     P(11, kD2, {4},  FALSE, TRUE,  <<0, 0>>),      \* invalid dummy: dummy rejection wins, no verify
-    P(12, kE, {1},   FALSE, FALSE, <<0, 0>>) }
+    P(12, kE, {1},   FALSE, FALSE, <<0, 0>>),
+    \* 21..25: the end-to-end palette (EndToEnd.tla): real private batches of real leaf proofs, N = 2 leaf slots each
+    P(21, kA, {1, 2}, TRUE, TRUE, <<1, 0, 2, 0>>),
+    P(22, kA, {3},    TRUE, TRUE, <<3, 0, 0, 0>>),   \* one real leaf + one dummy
+    P(23, kA, {2, 4}, TRUE, TRUE, <<2, 0, 1, 0>>),   \* competes with 21 for the deposit with nullifier 2
+    P(24, kB, {5},    TRUE, TRUE, <<1, 0, 0, 0>>),
+    P(25, kB, {1},    TRUE, TRUE, <<1, 0, 0, 0>>) }  \* deposit 1 again, proved against the other block
 
 MCPalette == {p \in FullPalette : p.id \in PaletteSel}
 AllKeys == {p.key : p \in MCPalette}
